@@ -87,6 +87,11 @@ var (
 				}
 				if s, ok := schemaOutputMap[id]; ok {
 					mapping.OutputName = s
+				} else if _, hasPackage := schemaPackageMap[id]; !hasPackage {
+					// Only the root type is named: the schema is still written, to the default output,
+					// like a schema without any mapping. (A package without an output keeps meaning
+					// "these types live elsewhere, emit nothing".)
+					mapping.OutputName = defaultOutput
 				}
 				if s, ok := schemaRootTypeMap[id]; ok {
 					mapping.RootType = s
